@@ -12,7 +12,10 @@
 #include "ola/Clock.h"
 #include "ola/DmxBuffer.h"
 #include "ola/Logging.h"
+#include "ola/rdm/RDMCommand.h"
+#include "ola/rdm/RDMEnums.h"
 #include "ola/rdm/UID.h"
+#include "ola/rdm/UIDSet.h"
 #include "olad/plugin_api/Client.h"
 #include "olad/Device.h"
 #include "olad/PluginAdaptor.h"
@@ -86,22 +89,43 @@ class VPrioInput : public TestMockPriorityInputPort {
  private:
   Veto m_veto;
 };
-class VOutput : public TestMockOutputPort {
+// An output port like a real RDM-capable one: discovery started from SetUniverse() may complete later
+// (the completion callbacks are kept until the history fires them; the port owns them and drops them
+// when it is deleted), and unicast RDM requests handed to it by the universe are recorded.
+static int g_last_rdm_port = -1;
+class VOut : public ola::BasicOutputPort {
  public:
-  VOutput(ola::AbstractDevice *d, unsigned int id, const Veto &v)
-      : TestMockOutputPort(d, id), m_veto(v) {}
+  VOut(ola::AbstractDevice *d, unsigned int id, const Veto &v, bool prio, bool defer, int index)
+      : ola::BasicOutputPort(d, id, defer, true), m_veto(v), m_prio(prio), m_defer(defer), m_index(index) {}
+  ~VOut() {
+    for (size_t i = 0; i < pending.size(); i++) delete pending[i];
+  }
+  std::string Description() const { return ""; }
+  bool WriteDMX(const ola::DmxBuffer &, uint8_t) { return true; }
   bool PreSetUniverse(Universe *, Universe *n) { return !m_veto.Refuses(n); }
+  void RunIncrementalDiscovery(ola::rdm::RDMDiscoveryCallback *on_complete) {
+    if (m_defer) {
+      pending.push_back(on_complete);
+    } else {
+      ola::rdm::UIDSet uids;
+      on_complete->Run(uids);
+    }
+  }
+  void SendRDMRequest(ola::rdm::RDMRequest *request, ola::rdm::RDMCallback *callback) {
+    g_last_rdm_port = m_index;
+    delete request;
+    ola::rdm::RunRDMCallback(callback, ola::rdm::RDM_FAILED_TO_SEND);
+  }
+  std::vector<ola::rdm::RDMDiscoveryCallback*> pending;
+ protected:
+  bool SupportsPriorities() const { return m_prio; }
  private:
   Veto m_veto;
+  bool m_prio, m_defer;
+  int m_index;
 };
-class VPrioOutput : public TestMockPriorityOutputPort {
- public:
-  VPrioOutput(ola::AbstractDevice *d, unsigned int id, const Veto &v)
-      : TestMockPriorityOutputPort(d, id), m_veto(v) {}
-  bool PreSetUniverse(Universe *, Universe *n) { return !m_veto.Refuses(n); }
- private:
-  Veto m_veto;
-};
+
+static void rdm_reply_ignored(ola::rdm::RDMReply *) {}
 
 // records SaveUniverseSettings calls (one "uni_<n>_merge" write per save)
 class LogPreferences : public ola::MemoryPreferences {
@@ -145,6 +169,7 @@ struct World {
   ola::OlaServerServiceImpl service;
   vector<CfgDevice*> devs;
   vector<PortRec> ports;
+  std::map<int, VOut*> vouts;      // the output mocks (entry removed when the port is deleted)
   vector<const ola::Port*> orig;   // every port ever created (to name stale broker keys)
   vector<string> port_ids;         // UniqueId of every port
   std::map<unsigned int, ola::Client*> clients;
@@ -245,6 +270,40 @@ struct World {
       if (!p) { s += "X"; continue; }
       s += vh::str(static_cast<int>(p->GetPriority())) + "/" +
            (p->GetPriorityMode() == ola::PRIORITY_MODE_INHERIT ? "i" : "s");
+    }
+    return s;
+  }
+
+  // which port Universe::SendRDMRequest hands a unicast request for uid 1..3 to, per universe
+  string routes_s() {
+    vector<Universe*> unis;
+    store.GetList(&unis);
+    vector<std::pair<unsigned int, Universe*> > byid;
+    for (size_t i = 0; i < unis.size(); i++) byid.push_back(std::make_pair(unis[i]->UniverseId(), unis[i]));
+    std::sort(byid.begin(), byid.end());
+    string s;
+    for (size_t i = 0; i < byid.size(); i++) {
+      if (i) s += ",";
+      s += vh::str(byid[i].first) + ":";
+      for (unsigned int uid = 1; uid <= 3; uid++) {
+        ola::rdm::UID dst(ola::OPEN_LIGHTING_ESTA_CODE, uid), src(ola::OPEN_LIGHTING_ESTA_CODE, 100);
+        g_last_rdm_port = -1;
+        byid[i].second->SendRDMRequest(
+            new ola::rdm::RDMGetRequest(src, dst, 0, 1, 0, ola::rdm::PID_DEVICE_INFO, NULL, 0),
+            ola::NewSingleCallback(&rdm_reply_ignored));
+        s += (uid > 1 ? "." : "") + (g_last_rdm_port < 0 ? string("-") : vh::str(g_last_rdm_port));
+      }
+    }
+    return s;
+  }
+
+  // discoveries in flight per output port
+  string pend_s() {
+    string s;
+    for (size_t i = 0; i < ports.size(); i++) {
+      if (i) s += ",";
+      std::map<int, VOut*>::iterator it = vouts.find(i);
+      s += (it == vouts.end() || !ports[i].port()) ? string("-") : vh::str(it->second->pending.size());
     }
     return s;
   }
@@ -366,8 +425,10 @@ string handle(const string &payload) {
         else r.in = new VInput(parent, pid, &w.adaptor, v);
         if (parent) w.devs[r.dev]->AddPort(r.in);
       } else {
-        if (cap == 2) r.out = new VPrioOutput(parent, pid, v);
-        else r.out = new VOutput(parent, pid, v);
+        bool defer = a.size() > 8 && a[8] == "d";
+        VOut *vo = new VOut(parent, pid, v, cap == 2, defer, i);
+        r.out = vo;
+        w.vouts[i] = vo;
         if (parent) w.devs[r.dev]->AddPort(r.out);
       }
       w.ports.push_back(r);
@@ -440,7 +501,7 @@ string handle(const string &payload) {
       if (d < w.devs.size()) {
         w.devs[d]->Stop();                          // deletes the device's ports
         for (size_t i = 0; i < w.ports.size(); i++)
-          if (w.ports[i].dev == d) { w.ports[i].in = NULL; w.ports[i].out = NULL; }
+          if (w.ports[i].dev == d) { w.ports[i].in = NULL; w.ports[i].out = NULL; w.vouts.erase(i); }
       }
     } else if (o == "R") {
       unsigned int d = vh::num(a[1]);
@@ -451,6 +512,19 @@ string handle(const string &payload) {
         r = w.dm->UnregisterDevice(static_cast<const ola::AbstractDevice*>(w.devs[d])) ? "1" : "0";
     } else if (o == "NA") {
       w.dm->UnregisterAllDevices();
+    } else if (o == "DF") {
+      // the oldest discovery in flight on output port a[1] completes with the UIDs in mask a[2]
+      std::map<int, VOut*>::iterator it = w.vouts.find(vh::num(a[1]));
+      if (it != w.vouts.end() && !it->second->pending.empty()) {
+        ola::rdm::RDMDiscoveryCallback *cb = it->second->pending.front();
+        it->second->pending.erase(it->second->pending.begin());
+        ola::rdm::UIDSet uids;
+        for (unsigned int uid = 1; uid <= 3; uid++)
+          if (vh::num(a[2]) & (1u << (uid - 1))) uids.AddUID(ola::rdm::UID(ola::OPEN_LIGHTING_ESTA_CODE, uid));
+        bool patched = it->second->GetUniverse() != NULL;
+        cb->Run(uids);                         // BasicOutputPort::UpdateUIDs
+        r = patched ? "1" : "0";
+      }
     } else if (o == "Q") {
       // Port::SetPriority called on the port itself (not through the PortManager)
       if (vh::num(a[1]) < w.ports.size() && w.ports[vh::num(a[1])].port())
@@ -492,7 +566,8 @@ string handle(const string &payload) {
     }
     out += ";r" + vh::str(k) + "=" + r + ";d" + vh::str(k) + "=" + w.dump() +
            ";c" + vh::str(k) + "=" + w.cands() + ";b" + vh::str(k) + "=" + w.broker_s() +
-           ";f" + vh::str(k) + "=" + w.prefs_s() + ";p" + vh::str(k) + "=" + w.prio_s();
+           ";f" + vh::str(k) + "=" + w.prefs_s() + ";p" + vh::str(k) + "=" + w.prio_s() +
+           ";t" + vh::str(k) + "=" + w.routes_s() + ";q" + vh::str(k) + "=" + w.pend_s();
   }
   return out;
 }
@@ -500,5 +575,6 @@ string handle(const string &payload) {
 
 int main(int argc, char **argv) {
   ola::InitLogging(ola::OLA_LOG_NONE, ola::OLA_LOG_NULL);
-  return vh::run(argc, argv, handle);
+  // cases take well under a millisecond; the generous watchdog only guards against a stalled machine
+  return vh::run(argc, argv, handle, 180);
 }
